@@ -14,6 +14,9 @@ names = args or sorted(os.listdir(os.path.join(VERIF, 'seeded')))
 for name in names:
     d = os.path.join(VERIF, 'seeded', name)
     meta = json.load(open(os.path.join(d, 'meta.json')))
+    if meta.get('retired'):
+        print(name, 'retired:', meta['retired'][:100])
+        continue
     wt = '/tmp/wt/%s' % meta['property']      # some demonstrations assert this path
     subprocess.run('git -C /repo worktree remove --force %s 2>/dev/null; git -C /repo worktree add -q --detach %s HEAD' % (wt, wt), shell=True)
     ap = subprocess.run('git apply %s/patch.diff && cp %s/demo.py .' % (d, d), shell=True, cwd=wt)
